@@ -1503,6 +1503,64 @@ def task_error_before_output(scratch, tier, seed, logdir):
     return [ob.done()]
 
 
+def task_small_kernels(scratch, tier, seed, logdir):
+    """C06 / C01: KING and R0 as functions of the nine cells (all reals), D = (theta1 - theta2) / variance,
+    and `scs += &count` adds exactly 1.0 at the count index."""
+    fns = fns_for(scratch, "sfs-core")
+    out = []
+    ob = Ob("kinship_kernels", ["stat::{King,R0}::from_spectrum_unchecked"], "all real cell values (index = (genotype of individual 1, genotype of individual 2))")
+    try:
+        def m_cell(ex, st, fn, args, ds):
+            m = re.search(r"array\((\d+), (\d+)\)", show(args[1]))
+            if not m:
+                return None
+            name = f"x{m.group(1)}{m.group(2)}"
+            st.env["$" + name] = V(name, "real")
+            return ("ref", "$" + name)
+        specs = {"King": "(/ (- |x11| (* 2.0 (+ |x02| |x20|))) (+ (+ (+ (+ |x01| |x10|) (* 2.0 |x11|)) |x12|) |x21|))",
+                 "R0": "(/ (+ |x02| |x20|) |x11|)"}
+        n = 0
+        for nm, spec in specs.items():
+            f = [x for x in fns if re.search(r"stat\.rs>::from_spectrum_unchecked$", mir.norm_name(x.name)) and x.ret.strip() == nm]
+            if len(f) != 1:
+                raise LookupError(f"{nm}: {len(f)} functions")
+            ps = [p for p in mir.Exec(f[0], [(r"Index<\[usize; 2\]>>::index$", m_cell)]).run({"_1": ("ref", "$s"), "$s": V("spectrum", "U")}) if p.end == "return"]
+            if len(ps) != 1 or ps[0].ret[0] != "app" or not ps[0].ret[1].startswith("ctor:"):
+                raise RuntimeError(f"{nm}: unexpected shape of the function")
+            sm = mir.Smt()
+            t = sm.tr(ps[0].ret[2][0])
+            for i in range(3):
+                for j in range(3):
+                    sm.decls[f"|x{i}{j}|"] = "Real"
+            r, o = ob.run(q(sm, [f"(not (= {t} {spec}))"]), "unsat", 30)
+            n += 1
+            if r == "sat":
+                ob.fail("violation", f"{nm} is not the published ratio of genotype-pair counts (Waples et al. 2019): {o[:200]}", model=o)
+        ob.d["nonvacuous"] = n == 2
+    except (LookupError, ValueError, RuntimeError, KeyError, IndexError) as e:
+        ob.fail("inconclusive", f"translator: {type(e).__name__}: {e}")
+    out.append(ob.done())
+
+    ob = Ob("d_estimate_and_add_assign", ["stat::d::Statistic::estimate_unchecked", "impl AddAssign<&Count> for Scs"], "structural (terms)")
+    try:
+        f = mir.find_fn(fns, r"Statistic::estimate_unchecked$")
+        ps = [p for p in mir.Exec(f, []).run({"_1": ("ref", "$s"), "$s": V("scs", "U")}) if p.end == "return"]
+        r_ = show(ps[0].ret) if ps else ""
+        if not re.fullmatch(r"Div\(Sub\(field\(theta::Theta::<<Self as Statistic>::T1>::from_spectrum_unchecked::<Counts>\(scs\), 0\), field\(theta::Theta::<<Self as Statistic>::T2>::from_spectrum_unchecked::<Counts>\(scs\), 0\)\), <Self as Statistic>::variance\(scs\)\)", r_):
+            ob.fail("violation", "D is not (theta_1 - theta_2) / variance on the same spectrum: " + r_[:200])
+        g = mir.find_fn(fns, r"add_assign$", params=["Count"])
+        ps = [p for p in mir.Exec(g, []).run({"_1": ("ref", "$self"), "$self": V("scs", "U"), "_2": V("count", "U")}) if p.end == "return"]
+        t = show(ps[0].state.env["$self"]) if ps else ""
+        if not (t.startswith("store(") and "index_mut!mut0(scs, count)" in t and t.endswith("index_mut(scs, count)), 1.0))") and "Add(deref(" in t):
+            ob.fail("violation", "`scs += &count` is not `scs[count] += 1.0`: " + t[:200])
+        ob.d["nonvacuous"] = True
+        ob.d["queries"] += 2
+    except (LookupError, ValueError, RuntimeError, KeyError, IndexError) as e:
+        ob.fail("inconclusive", f"translator: {type(e).__name__}: {e}")
+    out.append(ob.done())
+    return out
+
+
 def task_main_exit(scratch, tier, seed, logdir):
     """C10 / C16 / C17: main maps every Err of run() to a message on stderr and exit status 1."""
     fns = fns_for(scratch, "sfs-cli")
@@ -1585,6 +1643,7 @@ TASKS = {
     "project_wiring": task_project_wiring,
     "fstat_kernels": task_fstat_kernels,
     "error_before_output": task_error_before_output,
+    "small_kernels": task_small_kernels,
     "shape_closures": task_shape_closures,
 }
 
